@@ -1127,6 +1127,22 @@ class _TickWalker:
         self.paths = W().block(p0, list(stmts))
 
 
+def _returned_bool(p: Any) -> bool | None:
+    """The truth value a path returns when it is decided on that path: a literal, or an expression the path has
+    already tested (`is_new = source not in self._resamplers ... if is_new: ... return is_new`: on the path where the
+    membership test came out one way, the returned flag - the same test, seen through the local - has that value)."""
+    from ..engine.sympath import cond_key
+
+    r = p.ret
+    if isinstance(r, ast.Constant) and isinstance(r.value, bool):
+        return r.value
+    if r is None:
+        return None
+    key, pol = cond_key(r)
+    o = p.outcome(key)
+    return None if o is None else (o == pol)
+
+
 def check_same(run: Run, prog: Program) -> None:
     fn = prog.func(f"{RES}.resample")
     node = inline_helpers(prog, fn)
@@ -1202,7 +1218,7 @@ def check_same(run: Run, prog: Program) -> None:
         known = p.outcome(("in", src, "self._resamplers"))
         writes = [e for e in p.effects if e.kind == "write" and u(e.node.elts[0]).startswith("self._resamplers")]  # type: ignore[attr-defined]
         if known is True:
-            ok = not writes and p.exit == "return" and u(p.ret) == "False"
+            ok = not writes and p.exit == "return" and _returned_bool(p) is False
         elif known is False:
             ok = len(writes) == 1 and u(writes[0].node.elts[0]) == f"self._resamplers[{src}]" \
                 and isinstance(writes[0].node.elts[1], ast.Call) and u(writes[0].node.elts[1].func) == "_StreamingHelper"  # type: ignore[attr-defined]
